@@ -15,7 +15,7 @@ ASSUMPTIONS = [
     "inequalities are asserted only where every involved slice has variances / covariance eigenvalues above 1e-8 x scale^2 (property: well above the variance floor); skipped cases are counted",
 ]
 
-COSTS = ["L2Cost", "GaussianVarCost", "GaussianCovCost", "L1Cost"]
+COSTS = ["L2Cost", "GaussianVarCost", "GaussianCovCost", "L1Cost", "TrendL2"]
 
 
 def make_cost(name, param=None, extra=None):
@@ -25,11 +25,17 @@ def make_cost(name, param=None, extra=None):
 
         p = None if param is None else param["mean"]
         return L1Cost(p if p is None or not isinstance(p, list) else list(p), 1.0 if extra is None else extra)
+    if name == "TrendL2":  # user cost that subclasses the built-in L2Cost and overrides its evaluation
+        from userdefs.scorers import TrendPenalisedL2Cost
+
+        m = None if param is None else param["mean"]
+        m = m if m is None or not isinstance(m, list) else np.asarray(m, dtype=float)
+        return TrendPenalisedL2Cost(m, 0.5 if extra is None else extra)
     return c01.build_cost(name, param)
 
 
 def cost_min_size(name, p):
-    return 1 if name == "L1Cost" else c01.min_size_of(name, p)
+    return 1 if name in ("L1Cost", "TrendL2") else c01.min_size_of(name, p)
 
 
 def to_container(X, container):
@@ -85,7 +91,7 @@ def base_case(draw, tier, kind, costs=COSTS):
     else:
         cuts = draw(c01.intervals(n, ms, max_batch=8))
     return {"cost": cost, "X": X, "cuts": cuts, "container": draw(st.sampled_from(["ndarray", "DataFrame"])),
-            "extra": draw(st.sampled_from([2.5, 1.0, 0.5])) if cost == "L1Cost" else None}
+            "extra": draw(st.sampled_from([2.5, 1.0, 0.5])) if cost in ("L1Cost", "TrendL2") else None}
 
 
 def evaluate_or_none(scorer, cuts):
@@ -120,7 +126,7 @@ def compare_rows(what, got, want_rows, cuts, scale_rows):
 def change_cases(draw, tier):
     case = draw(base_case(tier, "change"))
     p = len(case["X"][0])
-    case["param"] = draw(c01.fixed_param(case["cost"], p)) if (case["cost"] != "L1Cost" and draw(st.integers(0, 4)) == 0) else None
+    case["param"] = draw(c01.fixed_param(case["cost"], p)) if (case["cost"] not in ("L1Cost", "TrendL2") and draw(st.integers(0, 4)) == 0) else None
     return case
 
 
@@ -172,7 +178,7 @@ def check_change(case):
 def saving_cases(draw, tier):
     case = draw(base_case(tier, "saving"))
     p = len(case["X"][0])
-    if case["cost"] == "L1Cost":
+    if case["cost"] in ("L1Cost", "TrendL2"):
         case["param"] = {"mean": draw(st.one_of(st.floats(-5, 5, allow_nan=False),
                                                 st.lists(st.floats(-5, 5, allow_nan=False), min_size=p, max_size=p)))}
     else:
